@@ -67,6 +67,17 @@ def mirror(d: dict) -> dict | None:
                 recs.append(x)
             recs.sort(key=lambda r: r['pos'])
             f['records'] = recs
+    if m.get('bg'):
+        recs = []
+        for rec in d['bg']:
+            if rec.get('contig', d['contig']) != d['contig']:
+                continue
+            x = mirror_record(U, rec)
+            if x is None:
+                return None
+            recs.append(x)
+        recs.sort(key=lambda r: r['pos'])
+        m['bg'] = recs
     m['opts'] = dict(d['opts'], revcomp=True)
     return m
 
@@ -113,6 +124,12 @@ def make_design(rng, i: int) -> dict:
              'cds_mut': list(FREE), 'non_cds_mut': ['snv', '1del'], 'allow_short_cds': True, 'p_no_op': 0.6, 'p_revcomp': 1.0,
              'custom_kinds': ['snv', 'snv', 'mnv', 'ins', 'del', 'delins_u'], 'p_lower': 0.0, 'n_pam': [1, 2, 3], 'p_softmask': 0.0,
              'exon_lens': rng.choice([[4, 5, 6, 7, 9, 12, 17, 21, 30, 31, 32, 45], [5, 7, 8, 10, 11]])}
+    if i % 3 == 2:
+        # background substitutions (also protein-changing ones and MNVs across codon boundaries: both runs must refuse alike) and non-coding
+        # deletions, mirrored with the design; insertions are left to C06 (its recorded finding about the base after an insertion is
+        # not mirror symmetric)
+        focus.update(p_bg=1.0, p_mask=0.0, bg_kinds=['snv', 'snv', 'mnv', 'mnv', 'del'], bg_mnv_coding=True, n_bg=[1, 2, 3],
+                     bg_coding=rng.choice(['syn', 'any']))
     for _ in range(50):
         d = gen.gen_sge(rng, focus)
         d['extra_contigs'] = {}
@@ -122,6 +139,30 @@ def make_design(rng, i: int) -> dict:
         for f in d.get('vcfs') or []:
             f['records'] = [r for r in f['records'] if not (r.get('alts') and len(r['ref']) != len(r['alts'][0]) and len(r['ref']) > 0
                                                           and r['ref'][0].upper() != r['alts'][0][0].upper() and r['ref'][-1].upper() == r['alts'][0][-1].upper())]
+        if d.get('bg'):
+            # an insertion between a deleted base and a surviving one is attached to the base that follows it: which of the two that is
+            # depends on the orientation, so whether it "touches" the deletion is not mirror symmetric - left out
+            # the tool validates a background variant for the targeton it *starts* in (C15): for a multi-base variant straddling a targeton
+            # boundary the start is inside in one orientation and outside in the other - left out
+            def straddles(b):
+                p, r, a = bg.reported(b['pos'], b['ref'].upper(), b['alts'][0].upper())
+                e = p + max(1, len(r)) - 1
+                return any(p < x <= e for t in d['targetons'] for x in (t['ref_start'], t['ref_end'] + 1))
+            d['bg'] = [b for b in d['bg'] if not straddles(b)]
+            dels = set()
+            for b in d['bg']:
+                p, r, a = bg.reported(b['pos'], b['ref'].upper(), b['alts'][0].upper())
+                if r and not a:
+                    dels |= set(range(p - 1, p + len(r) + 1))
+            for f in d.get('vcfs') or []:
+                keep = []
+                for rec in f['records']:
+                    if rec.get('alts'):
+                        p, r, a = bg.reported(rec['pos'], rec['ref'].upper(), rec['alts'][0].upper())
+                        if not r and (p in dels or p - 1 in dels):
+                            continue
+                    keep.append(rec)
+                f['records'] = keep
         if not edge_insertions(d):
             return d
     return d
@@ -222,7 +263,8 @@ def run(ctx: Ctx):
                     'junctions, PAM edits, custom SNV/MNV/insertions/deletions/delins, custom codon tables, no-op oligos, orientation-free '
                     'mutators) is run next to its mirror image (reference reverse-complemented, every coordinate, the strand, both vectors '
                     'and all variants mirrored) with --revcomp-minus-strand; per targeton the multisets of (mutator, mseq, ref_aa, alt_aa, '
-                    'mut_type, pam_mut_annot as a multiset, pam_mut_sgrna_id, alias, id) must coincide. S-api: get_range_cds_exts on mirrored '
+                    'mut_type, pam_mut_annot as a multiset, pam_mut_sgrna_id, alias, id) must coincide and both runs must be accepted or refused alike; a third of '
+                    'the designs carry mirrored background variants (SNVs, MNVs also across codon boundaries and protein-changing, non-coding deletions). S-api: get_range_cds_exts on mirrored '
                     'exon/region pairs vs the model. Non-trivial = a targeton with rows.'}
 
 
